@@ -70,66 +70,81 @@ def run(E: Engine, rep: Report, tier: str) -> dict:
     rep.floor("OWN", 4)
 
     # --------------------------------------------------------------- FLOW
-    comps = _built_comprehensions(build)
-    srcs = {v[1] for v in comps.values()}
-    rep.check("call.args" in srcs, "FLOW", "Sequence.build|args-built", "every positional argument of a stored call is built when Parametrized", "positional arguments of stored calls are no longer all passed through .build()", E.where(build))
-    rep.check("call.kwargs.items()" in srcs, "FLOW", "Sequence.build|kwargs-built", "every keyword argument of a stored call is built when Parametrized", "keyword arguments of stored calls are no longer all passed through .build()", E.where(build))
-    # what is replayed in the to-build loop are exactly those built containers
-    ok = False
-    for n in own_nodes(build):
-        if isinstance(n, ast.For) and norm(n.iter) == "self._to_build_calls":
-            for s in ast.walk(n):
-                if isinstance(s, ast.Call) and isinstance(s.func, ast.Call) and (dotted(s.func.func) or "") == "getattr":
-                    star = [norm(a.value) for a in s.args if isinstance(a, ast.Starred)]
-                    dstar = [norm(k.value) for k in s.keywords if k.arg is None]
-                    ok = bool(star) and bool(dstar) and star[0] in comps and dstar[0] in comps and comps[star[0]][1] == "call.args" and comps[dstar[0]][1] == "call.kwargs.items()" and norm(s.func.args[1]) == "call.name"
-    rep.check(ok, "FLOW", "Sequence.build|replays-built-arguments", "getattr(seq, call.name)(*built_args, **built_kwargs)", "the to-build replay no longer passes the built args/kwargs of the stored call", E.where(build))
-    # order: _calls[1:] replayed before _to_build_calls
-    lines = {}
-    for n in own_nodes(build):
-        if isinstance(n, ast.For):
-            it = norm(n.iter)
-            if it.endswith("._calls[1:]"):
-                lines["calls"] = n.lineno
-            if it == "self._to_build_calls":
-                lines["to_build"] = n.lineno
-    rep.check("calls" in lines and "to_build" in lines and lines["calls"] < lines["to_build"], "FLOW", "Sequence.build|regular-calls-first", "regular calls replayed before the to-build calls", "build no longer replays _calls[1:] before _to_build_calls", E.where(build))
-    # variables assigned before the to-build replay
-    asg = [n.lineno for n in own_nodes(build) if isinstance(n, ast.Call) and isinstance(n.func, ast.Attribute) and n.func.attr == "_assign"]
-    rep.check(bool(asg) and "to_build" in lines and max(asg) < lines["to_build"], "FLOW", "Sequence.build|assign-before-replay", "variables are assigned before parametrized calls are built", "variables are no longer assigned before the to-build replay", E.where(build))
-    # the concrete register is installed before the parametrized calls are replayed
-    flb = E.flow(build)
-    sr_call = None
-    loop = None
-    for n in own_nodes(build):
-        if isinstance(n, ast.Call) and isinstance(n.func, ast.Attribute) and n.func.attr == "_set_register":
-            sr_call = n
-        if isinstance(n, ast.For) and norm(n.iter) == "self._to_build_calls":
-            loop = n
-    if sr_call is None or loop is None:
-        raise AnalysisError("anchor: _set_register call / to-build loop not found in Sequence.build")
-    n_sr, n_loop = flb.node_of(sr_call), flb.node_of(loop.iter)
-    ok = n_sr is not None and n_loop is not None and n_sr.id not in flb.reachable_from(n_loop.id) and n_loop.id in flb.reachable_from(n_sr.id)
-    rep.check(ok, "FLOW", "Sequence.build|register-resolved-before-replay", "the mappable register is resolved (and global slots retargeted) before the to-build calls are replayed", "Sequence.build installs the concrete register after (part of) the to-build replay: instructions replayed before that still address all reserved qubit ids", E.where(build, sr_call))
+    from .. import sym
+    from .symutil import S, arg, elem_of, has, is_, mentions, sh, unobj
+
+    Sb = S(E, build)
+    own = [l for l in Sb.log if l.fn == build.short]
+    replays = [l for l in own if l.kind == "call" and l.target is not None and l.target[0] == "call" and l.target[1] == ("name", "getattr")]
+
+    def built_comp(t, src, kind: str) -> bool:
+        """t = [x.build() if isinstance(x, Parametrized) else x for x in src]  (or the dict analogue over src.items())"""
+        t = unobj(t)
+        if t is None or t[0] != "comp" or len(t[3]) != 1 or t[3][0][1] != sym.TRUE:
+            return False
+        it = t[3][0][0]
+        if kind == "list":
+            m = is_(t[2], "Q_x.build() if isinstance(Q_x, Parametrized) else Q_x")
+            return it == src and m is not None and elem_of(m["Q_x"], it)
+        if it != ("call", ("attr", src, "items"), (), ()) or t[2][0] != "tuple":
+            return False
+        k, v = t[2][1], t[2][2]
+        m = is_(v, "Q_x.build() if isinstance(Q_x, Parametrized) else Q_x")
+        return m is not None and k[0] == "item" and k[2] == 0 and elem_of(k[1], it) and m["Q_x"] == ("item", k[1], 1)
+
+    tb = [l for l in replays if l.loops and l.loops[-1] == sym.Pattern("self._to_build_calls").term]
+    rg = [l for l in replays if l.loops and is_(l.loops[-1], "Q_s._calls[1:]") is not None]
+    if not tb or not rg:
+        raise AnalysisError(f"anchor: Sequence.build replays: {len(rg)} over _calls[1:], {len(tb)} over _to_build_calls")
+    for l in tb:
+        call_ = ("elem", l.loops[-1], len(l.loops) - 1)
+        stars = [a[1] for a in l.value[2] if a[0] == "star"]
+        dstar = [v for k, v in l.value[3] if k == "**"]
+        a_ok = len(stars) == 1 and len(l.value[2]) == 1 and built_comp(stars[0], ("attr", call_, "args"), "list")
+        k_ok = len(dstar) == 1 and len(l.value[3]) == 1 and built_comp(dstar[0], ("attr", call_, "kwargs"), "dict")
+        rep.check(a_ok, "FLOW", "Sequence.build|args-built", "every positional argument of a stored call is built when Parametrized", f"positional arguments of stored calls are no longer all passed through .build(): {sh(stars[0] if stars else None, 160)}", E.where(build, l.node))
+        rep.check(k_ok, "FLOW", "Sequence.build|kwargs-built", "every keyword argument of a stored call is built when Parametrized", f"keyword arguments of stored calls are no longer all passed through .build(): {sh(dstar[0] if dstar else None, 160)}", E.where(build, l.node))
+        name_ok = len(l.target[2]) == 2 and l.target[2][1] == ("attr", call_, "name")
+        rep.check(a_ok and k_ok and name_ok, "FLOW", "Sequence.build|replays-built-arguments", "getattr(seq, call.name)(*built_args, **built_kwargs)", "the to-build replay no longer passes the built args/kwargs of the stored call under the stored name", E.where(build, l.node))
+    first_tb = min(own.index(l) for l in tb)
+    rep.check(max(own.index(l) for l in rg) < first_tb, "FLOW", "Sequence.build|regular-calls-first", "regular calls replayed before the to-build calls", "build no longer replays _calls[1:] before _to_build_calls", E.where(build))
+    asg = [l for l in own if l.kind == "call" and l.target is not None and l.target[0] == "attr" and l.target[2] == "_assign"]
+    rep.check(bool(asg) and max(own.index(l) for l in asg) < first_tb, "FLOW", "Sequence.build|assign-before-replay", "variables are assigned before parametrized calls are built", "variables are no longer assigned before the to-build replay", E.where(build))
+    sr = [l for l in own if l.kind == "call" and l.target == ("attr", ("name", "self"), "_set_register")]
+    if not sr:
+        raise AnalysisError("anchor: _set_register call not found in Sequence.build")
+    rep.check(max(own.index(l) for l in sr) < first_tb and all(arg(l, 0) == tb[0].target[2][0] for l in sr), "FLOW", "Sequence.build|register-resolved-before-replay", "the mappable register is resolved (and global slots retargeted) on the new sequence before the to-build calls are replayed", "Sequence.build installs the concrete register after (part of) the to-build replay, or on another object: instructions replayed before that still address all reserved qubit ids", E.where(build, sr[0].node))
     # ParamObj.build
     pb = E.method(PO, "build")
-    c2 = _built_comprehensions(pb)
-    s2 = {v[1] for v in c2.values()}
-    rep.check("self.args" in s2 and "self.kwargs.items()" in s2, "FLOW", "ParamObj.build|args-and-kwargs-built", "ParamObj builds its own args and kwargs", f"ParamObj.build builds only {sorted(s2)}", E.where(pb))
-    ok = any(isinstance(n, ast.If) and "isinstance(self.cls, ParamObj)" in norm(n.test) and "self.cls.build()" in norm(n) for n in ast.walk(pb.node))
-    rep.check(ok, "FLOW", "ParamObj.build|cls-built", "a parametrized callable is built too", "ParamObj.build no longer builds a ParamObj `cls`", E.where(pb))
+    Sp = S(E, pb)
+    inst = [l for l in Sp.logged("store") if l.fn == pb.short and l.target == ("attr", ("name", "self"), "_instance")]
+    if not inst:
+        raise AnalysisError("anchor: ParamObj.build no longer stores self._instance")
+    v = inst[-1].value
+    stars = [a[1] for a in v[2] if a[0] == "star"] if v[0] == "call" else []
+    dstar = [x for k, x in v[3] if k == "**"] if v[0] == "call" else []
+    slf = ("name", "self")
+    ok = len(stars) == 1 and len(dstar) == 1 and built_comp(stars[0], ("attr", slf, "args"), "list") and built_comp(dstar[0], ("attr", slf, "kwargs"), "dict")
+    rep.check(ok, "FLOW", "ParamObj.build|args-and-kwargs-built", "ParamObj builds its own args and kwargs", f"ParamObj.build no longer builds all its args and kwargs: {sh(v, 200)}", E.where(pb))
+    ok = v[0] == "call" and is_(v[1], "self.cls.build() if isinstance(self.cls, ParamObj) else self.cls") is not None
+    rep.check(ok, "FLOW", "ParamObj.build|cls-built", "a parametrized callable is built too", f"ParamObj.build no longer builds a ParamObj `cls`: calls {sh(v[1] if v[0] == 'call' else v, 100)}", E.where(pb))
     # cache keyed on the counters of *all* variables
     ok = False
-    for n in own_nodes(pb):
-        if isinstance(n, ast.Assign) and isinstance(n.value, ast.DictComp):
-            comp = n.value
-            if norm(comp.generators[0].iter) == "self._variables.items()" and "_count" in norm(comp.value) and not comp.generators[0].ifs:
-                ok = True
-    cmp_ok = any(isinstance(n, ast.If) and isinstance(n.test, ast.Compare) and isinstance(n.test.ops[0], ast.NotEq) and "_vars_state" in norm(n.test) for n in ast.walk(pb.node))
-    rep.check(ok and cmp_ok, "FLOW", "ParamObj.build|cache-keyed-on-all-variable-counters", "rebuilds iff the update counter of any involved variable changed", "ParamObj.build's cache is no longer keyed on the counters of all its variables: a stale instance could be returned after re-assignment", E.where(pb))
+    for x in sym.conj_of(inst[-1].cond):
+        m = is_(x, "Q_state != self._vars_state")
+        if m is not None:
+            c = unobj(m["Q_state"])
+            if c[0] == "comp" and c[1] == "dict" and len(c[3]) == 1 and c[3][0][1] == sym.TRUE and c[3][0][0] == sym.Pattern("self._variables.items()").term and c[2][0] == "tuple" and c[2][2][0] == "attr" and c[2][2][2] == "_count":
+                e_ = c[2][1][1] if c[2][1][0] == "item" else None
+                ok = e_ is not None and c[2] == ("tuple", ("item", e_, 0), ("attr", ("item", e_, 1), "_count"))
+                upd = [l for l in Sp.logged("store") if l.target == ("attr", slf, "_vars_state")]
+                ok = ok and bool(upd) and unobj(upd[-1].value) == c
+    rep.check(ok, "FLOW", "ParamObj.build|cache-keyed-on-all-variable-counters", "rebuilds iff the update counter of any involved variable changed", "ParamObj.build's cache is no longer keyed on the counters of all its variables: a stale instance could be returned after re-assignment", E.where(pb))
     ini = E.method(PO, "__init__")
-    src = norm(ini.node)
-    rep.check("chain(args, kwargs.values())" in src and "self._variables.update(x.variables)" in src, "FLOW", "ParamObj.__init__|collects-variables-of-args-and-kwargs", "variables of args and kwargs are collected", "ParamObj no longer collects the variables of both args and kwargs", E.where(ini))
+    Si = S(E, ini)
+    ups = [l for l in Si.log if l.fn == ini.short and l.kind == "call" and l.target == sym.Pattern("self._variables.update").term]
+    ok = any(l.loops and is_(l.loops[-1], "chain(args, kwargs.values())") is not None and is_(arg(l, 0), "Q_x.variables") is not None and elem_of(is_(arg(l, 0), "Q_x.variables")["Q_x"], l.loops[-1]) for l in ups)
+    rep.check(ok, "FLOW", "ParamObj.__init__|collects-variables-of-args-and-kwargs", "variables of args and kwargs are collected", "ParamObj no longer collects the variables of both args and kwargs", E.where(ini))
     rep.floor("FLOW", 10)
 
     # --------------------------------------------------------------- PAIR
